@@ -17,4 +17,24 @@
 // Nothing more is demanded: refusing a hybrid C1, or accepting one and returning
 // the right message, are both fine; so is decrypting an ASN.1 ciphertext although
 // plain options were given.
+//
+// Workloads:
+//
+//	c07.roundtrip  SM2 curve: every length x contents x key / k kinds, 9 encryption variants byte-equal
+//	               to the reference under the scripted k, 5 decryption entry points, wrong key; constructed
+//	               corner cases (leading-zero coordinates, zero masks, runs of zero masks up to the retry limit)
+//	c07.legacy     the same on NIST P-256 keys (math/big path of the library)
+//	c07.curves     the same, smaller, on P-224 / P-384 / P-521 keys (other element sizes: 28, 48, 66 bytes),
+//	               with the tamper sweep and the hostile families
+//	c07.tamper     every single-byte substitution, truncation and two extensions of valid ciphertexts
+//	c07.convert    converter chains up to depth 3
+//	c07.hostile    hand-made invalid inputs by family; invalid public keys, option values and key objects
+//	               for the panic monitor
+//	c07.envelope   enveloped-key helpers
+//	c07.keyobj     histories on ONE key object: first / second / third use through every entry point, every
+//	               constructor, FromECPrivateKey on a used receiver (then: new key works, old key refused),
+//	               refused ciphertexts and refused re-keying in between, Sign / Marshal / Encrypt-to-self traffic
+//	c07.mixed      histories in ONE process: several key objects on five curves, all KDF input and output
+//	               length classes, encryption / decryption / converters / KDF / hash interleaved and played
+//	               back to back, long-lived option objects and caller buffers; every step judged by the reference
 package c07
